@@ -5,19 +5,11 @@
 set -u
 OUT="$1"; N="$2"; NAME="$3"; IDS="$4"
 cd "$(dirname "$0")/.."
-WT="/tmp/sc_$$"
-git -C /repo worktree add -q "$WT" HEAD || exit 3
-RES="applies=no"
-if git -C "$WT" apply "$OUT/patch$N.diff"; then
-  RES="applies=yes"
-  T=$(cd "$WT" && PYTHONPATH="$WT/src" timeout 1200 /venv/bin/python -m pytest -q -p no:cacheprovider --timeout=900 2>&1 | tail -1)
-  RES="$RES; suite_with_change=[$T]"
-  REPO_ROOT="$WT" PYTHONPATH="$WT/src" timeout 900 /venv/bin/python "$OUT/demo$N.py" "$WT" >/tmp/sc_demo_$$.log 2>&1; RC1=$?
-  git -C "$WT" checkout -q -- .
-  REPO_ROOT="$WT" PYTHONPATH="$WT/src" timeout 900 /venv/bin/python "$OUT/demo$N.py" "$WT" >/tmp/sc_demo0_$$.log 2>&1; RC0=$?
-  RES="$RES; demo_with_change_rc=$RC1; demo_without_change_rc=$RC0"
+if [ -f "$OUT/confirmA$N.txt" ]; then
+  RES=$(cat "$OUT/confirmA$N.txt")      # phase A already done by tools/seedconfirmA.sh (parallelisable)
+else
+  RES=$(tools/seedconfirmA.sh "$OUT" "$N")
 fi
-git -C /repo worktree remove --force "$WT"
 echo "$RES"
 mkdir -p seeded/$NAME
 cp "$OUT/patch$N.diff" seeded/$NAME/patch.diff
@@ -43,4 +35,3 @@ m['caught'] = ('VIOLATION' in ver)
 json.dump(m, open(dst, 'w'), indent=1)
 print('caught' if m['caught'] else 'MISSED')
 PY
-rm -f /tmp/sc_demo_$$.log /tmp/sc_demo0_$$.log
